@@ -124,8 +124,51 @@ static std::string hmachist(TypeHash ty, const std::vector<std::string>& ops) {
     return out;
 }
 
+// decoders: the same output objects are reused across all cases of a run (they keep what the previous decode left in them),
+// so "left empty on failure" is checked against real prior contents
+static std::vector<uint8_t> g_dec_vec; static secure_buffer<uint8_t> g_dec_sb;
+template <class FV, class FS> static std::string dec_forms(FV fv, FS fs) {
+    Forms f;
+    { bool ok = fv(g_dec_vec); f.push_back(std::make_pair("vector", ok ? "some " + hx(g_dec_vec) : (g_dec_vec.empty() ? std::string("none") : std::string("none-but-output-not-empty")))); }
+    { bool ok = fs(g_dec_sb); f.push_back(std::make_pair("secure", ok ? "some " + hx(g_dec_sb.data(), g_dec_sb.size()) : (g_dec_sb.size() == 0 ? std::string("none") : std::string("none-but-output-not-empty")))); }
+    { std::vector<uint8_t> fresh; bool ok = fv(fresh); f.push_back(std::make_pair("vector-fresh", ok ? "some " + hx(fresh) : (fresh.empty() ? std::string("none") : std::string("none-but-output-not-empty")))); }
+    return agree(f);
+}
+
 static std::string run(const std::vector<std::string>& a) {
     const std::string& op = a[0];
+    if (op == "b64enc") {
+        Base64Alphabet al = a[1] == "1" ? Base64Alphabet::Url : Base64Alphabet::Standard; bool pad = a[2] == "1"; Bytes d = bx(a[3]);
+        secure_buffer<uint8_t> sd(d.size()); if (!d.empty()) memcpy(sd.data(), d.data(), d.size());
+        Forms f; f.push_back(std::make_pair("ptr", hxs(base64_encode(d.data(), d.size(), al, pad))));
+        f.push_back(std::make_pair("vec", hxs(base64_encode(d, al, pad)))); f.push_back(std::make_pair("secure", hxs(base64_encode(sd, al, pad))));
+        if (al == Base64Alphabet::Standard && pad) f.push_back(std::make_pair("vec-default", hxs(base64_encode(d))));
+        return agree(f);
+    }
+    if (op == "b64dec") {
+        Base64Alphabet al = a[1] == "1" ? Base64Alphabet::Url : Base64Alphabet::Standard; bool req = a[2] == "1", strict = a[3] == "1"; std::string in = str_of(bx(a[4]));
+        return dec_forms([&](std::vector<uint8_t>& o) { return base64_decode(in, o, al, req, strict); }, [&](secure_buffer<uint8_t>& o) { return base64_decode(in, o, al, req, strict); });
+    }
+    if (op == "b32enc") {
+        bool pad = a[1] == "1"; Bytes d = bx(a[2]); secure_buffer<uint8_t> sd(d.size()); if (!d.empty()) memcpy(sd.data(), d.data(), d.size());
+        Forms f; f.push_back(std::make_pair("ptr", hxs(base32_encode(d.data(), d.size(), pad))));
+        f.push_back(std::make_pair("vec", hxs(base32_encode(d, pad)))); f.push_back(std::make_pair("secure", hxs(base32_encode(sd, pad))));
+        return agree(f);
+    }
+    if (op == "b32dec") {
+        bool req = a[1] == "1", strict = a[2] == "1"; std::string in = str_of(bx(a[3]));
+        return dec_forms([&](std::vector<uint8_t>& o) { return base32_decode(in, o, req, strict); }, [&](secure_buffer<uint8_t>& o) { return base32_decode(in, o, req, strict); });
+    }
+    if (op == "b36enc") {
+        Bytes d = bx(a[1]); secure_buffer<uint8_t> sd(d.size()); if (!d.empty()) memcpy(sd.data(), d.data(), d.size());
+        Forms f; f.push_back(std::make_pair("ptr", hxs(base36_encode(d.data(), d.size()))));
+        f.push_back(std::make_pair("vec", hxs(base36_encode(d)))); f.push_back(std::make_pair("secure", hxs(base36_encode(sd))));
+        return agree(f);
+    }
+    if (op == "b36dec") {
+        std::string in = str_of(bx(a[1]));
+        return dec_forms([&](std::vector<uint8_t>& o) { return base36_decode(in, o); }, [&](secure_buffer<uint8_t>& o) { return base36_decode(in, o); });
+    }
     if (op == "shabig") {   // shabig <t> <nbytes> <byte>: hash nbytes copies of one byte value, streamed in 1 MiB updates
         unsigned long long n = strtoull(a[2].c_str(), 0, 10); Bytes chunk(1 << 20, (uint8_t)atoi(a[3].c_str()));
         if (a[1] == "sha1") { hmac_hash::SHA1 c; c.init(); for (unsigned long long i = 0; i < n; i += chunk.size()) c.update(chunk.data(), (size_t)std::min<unsigned long long>(chunk.size(), n - i)); uint8_t d[20]; c.finish(d); return hx(d, 20); }
